@@ -74,6 +74,17 @@ class Duo:
         self.w.idle()
         return item
 
+    def deliver_all(self, frm):
+        """Everything in flight from `frm` arrives coalesced in ONE read (TCP is a byte stream), up to an EOF."""
+        link = self.w.link
+        buf = b""
+        while link.fifo[frm] and link.fifo[frm][0] is not EOF:
+            buf += link.fifo[frm].popleft()
+        if buf:
+            link.readers[self.other(frm)].feed(buf)
+        self.w.idle()
+        return buf
+
     def brk(self, kind="eof"):
         self.w.link.break_(kind)
         self.w.idle()
